@@ -206,3 +206,62 @@ Proof.
   exists s. apply andb_true_iff in H. destruct H as [H Hi].
   apply andb_true_iff in H. destruct H as [Hn Hm]. apply Nat.eqb_eq in Hn. auto.
 Qed.
+
+(* ---- end to end: the conclusions of the theorems hold for the model state of an accepted run ---- *)
+Theorem accepted_simple_run ngen p w mu lam objs pop gens oc ol os ofin oi :
+  check (CLoop KSimple ngen p w mu lam objs pop gens oc ol os ofin oi) = true ->
+  let s := ea_simple (ev_fun p) (wfle w) (add_objs empty_store objs) pop (map to_ans gens) in
+  InvC (ev_fun p) s /\ InvH (ev_fun p) (wfle w) s /\
+  length (s_log s) = S ngen /\ length (s_pop s) = length pop /\
+  state_matches s oc ol os ofin = true.
+Proof.
+  intro H. apply check_loop_validates in H; [|discriminate]. cbv zeta in H.
+  destruct H as [H0 [R [_ [L [M _]]]]]. cbv zeta.
+  destruct (simple_inv (ev_fun p) (wfle w) _ _ _ H0 R) as [I [Ll P]].
+  split; [exact I|]. split; [|split; [rewrite Ll; f_equal; rewrite map_length; exact L|split; [exact P|exact M]]].
+  apply (simple_hof (ev_fun p) (wfle w) (wfle_total w) (wfle_trans w) _ _ _ H0 R).
+Qed.
+
+Theorem accepted_plus_run ngen p w mu lam objs pop gens oc ol os ofin oi :
+  check (CLoop KPlus ngen p w mu lam objs pop gens oc ol os ofin oi) = true ->
+  let s := ea_plus (ev_fun p) (wfle w) (add_objs empty_store objs) pop (map to_ans gens) in
+  InvC (ev_fun p) s /\ InvH (ev_fun p) (wfle w) s /\
+  length (s_log s) = S ngen /\ length (s_pop s) = match ngen with 0 => length pop | _ => mu end /\
+  state_matches s oc ol os ofin = true.
+Proof.
+  intro H. apply check_loop_validates in H; [|discriminate]. cbv zeta in H.
+  destruct H as [H0 [R [_ [L [M _]]]]]. cbv zeta.
+  destruct (plus_inv (ev_fun p) (wfle w) mu lam _ _ _ H0 R) as [I [Ll P]].
+  split; [exact I|]. split; [|split; [rewrite Ll; f_equal; rewrite map_length; exact L|split; [|exact M]]].
+  - apply (plus_hof (ev_fun p) (wfle w) (wfle_total w) (wfle_trans w) mu lam _ _ _ H0 R).
+  - rewrite P. subst ngen. destruct gens; reflexivity.
+Qed.
+
+Theorem accepted_comma_run ngen p w mu lam objs pop gens oc ol os ofin oi :
+  check (CLoop KComma ngen p w mu lam objs pop gens oc ol os ofin oi) = true ->
+  let s := ea_comma (ev_fun p) (wfle w) (add_objs empty_store objs) pop (map to_ans gens) in
+  InvC (ev_fun p) s /\ InvH (ev_fun p) (wfle w) s /\
+  length (s_log s) = S ngen /\ length (s_pop s) = match ngen with 0 => length pop | _ => mu end /\
+  state_matches s oc ol os ofin = true.
+Proof.
+  intro H. apply check_loop_validates in H; [|discriminate]. cbv zeta in H.
+  destruct H as [H0 [R [_ [L [M _]]]]]. cbv zeta.
+  destruct (comma_inv (ev_fun p) (wfle w) mu lam _ _ _ H0 R) as [I [Ll P]].
+  split; [exact I|]. split; [|split; [rewrite Ll; f_equal; rewrite map_length; exact L|split; [|exact M]]].
+  - apply (comma_hof (ev_fun p) (wfle w) (wfle_total w) (wfle_trans w) mu lam _ _ _ H0 R).
+  - rewrite P. subst ngen. destruct gens; reflexivity.
+Qed.
+
+Theorem accepted_harm_run ngen p w cxpb mutpb nbr objs pop gens oc ol os ofin oi :
+  check (CHarm ngen p w cxpb mutpb nbr objs pop gens oc ol os ofin oi) = true ->
+  exists s, ea_harm (ev_fun p) (wfle w) cxpb mutpb nbr (add_objs empty_store objs) pop gens = Ok s /\
+    InvC (ev_fun p) s /\ InvH (ev_fun p) (wfle w) s /\
+    length (s_log s) = S ngen /\ length (s_pop s) = length pop /\
+    state_matches s oc ol os ofin = true.
+Proof.
+  intro H. apply check_harm_validates in H. cbv zeta in H.
+  destruct H as [H0 [s [E [L [M _]]]]]. exists s. split; [exact E|].
+  destruct (harm_inv (ev_fun p) (wfle w) _ _ _ _ _ _ s H0 E) as [I [Ll P]].
+  split; [exact I|]. split; [|split; [rewrite Ll; f_equal; exact L|split; [exact P|exact M]]].
+  apply (harm_hof (ev_fun p) (wfle w) (wfle_total w) (wfle_trans w) _ _ _ _ _ _ s H0 E).
+Qed.
